@@ -1,6 +1,6 @@
 """Single source of truth for MANIFEST.json (tools/mkmanifest.py)."""
 
-FIX_COMMITS = ['cca4fac (C19 bbox int coercion)', '1b3ab08 (C05 cutout fill dtype)', '81c7236 (C05 multiply Quantity fill)', '1970dc7 (C20 PixCoord.rotate any shape)', 'c13e427 (C01 polygon scalar contains)', 'b692b96 (C14 FITS lexists)', 'd5e55fe (C14 encode before open)']
+FIX_COMMITS = ['cca4fac (C19 bbox int coercion)', '1b3ab08 (C05 cutout fill dtype)', '81c7236 (C05 multiply Quantity fill)', '1970dc7 (C20 PixCoord.rotate any shape)', 'c13e427 (C01 polygon scalar contains)', 'b692b96 (C14 FITS lexists)', 'd5e55fe (C14 encode before open)', '7575e32 50480bb b15a97b 942a7aa ec59199 (C17 validators/meta/list/nvertices/text)', 'd91a439 7c95242 bdc0d0d (C12 FITS exclude prefix / include+component / component dtype)']
 HOOK_COMMITS = []
 
 CHECKS = [
@@ -60,6 +60,29 @@ CHECKS = [
              'OS semantics, astropy writeto, serialisers/parsers and gzip are parameters (laws stated as hypotheses, exercised for real).',
      'note': 'Partial: OS file semantics and astropy.io.fits.writeto are parameters of the model (astropyWriteto proved to satisfy the assumed WritetoLaw); trusted extractor tools/c14_extract.py; '
              'Lean kernel + propext/Quot.sound only. F18/F40 fixed in /repo (b692b96, d5e55fe).'},
+    {'property_id': 'C02',
+     'technique': 'Lean 4 theorems (loop invariants over List.range folds, skip-box soundness, structural induction over region expressions); correspondence run',
+     'text': 'The sub-sampling double loop of all four kernels is proved to count exactly the n x n regularly spaced sample centres passing the kernel test (accumulator closed form), '
+             'values are k/n^2 in [0,1]; n=1 samples the pixel centre; the kernels tests equal the shapes membership tests (ellipse: open vs closed, boundary only); the bounding-box skips of the '
+             'circle/ellipse/polygon kernels lose nothing (polygon: via the parity theorem); with the to_mask glue every cell (j,i) of a simple-shape mask is the sampled membership of pixel '
+             '(ixmin+i, iymin+j) and the mask box is bounding_box; for EVERY region expression (annuli, compounds of any depth) the centre mask is 0/1, has the expression box, and is 1 exactly '
+             'where the pixel centre is in the expression point set (C08.center_mask_spec, induction); mode table. '
+             'Validated only: the circle kernel fast paths (sqrt) vs sampling, and that the compiled .so implements the .pyx.',
+     'note': 'Partial in one respect: the circle kernel fast paths are not in the executable model (differential run only). Trusted: Lean kernel/Mathlib/3 std axioms; hand model MaskGen.lean tied to the '
+             'compiled kernels + to_mask glue by exact comparison of recovered sample counts; boundary sub-samples (exact distance < 1e-9) excepted.'},
+    {'property_id': 'C08',
+     'technique': 'Lean 4 theorems by structural induction over region expressions; padding/placement algebra with omega; correspondence run',
+     'text': 'contains of a compound = operator applied to the operands answers, negated as a whole when its include flag is falsy; |,&,^ are or/and/xor; rotation commutes with the operator and keeps it; '
+             'np.pad placement on the union box is proved cell-exact (padCell_spec) and the centre mask of any compound = operator of the operands masks on the union box = indicator of the operator applied to the '
+             'operands point sets (combine_ok, center_mask_spec, any depth); annulus = outer minus inner (nesting proved), complement under the shared include flag, area = difference; annulus box = outer box (monotonicity of from_float and of the sqrt-floor). '
+             'Commutation with pixel<->sky conversion is C06.',
+     'note': 'Trusted: Lean kernel/Mathlib/3 std axioms; hand model tied to compound.py by the correspondence run (real compound vs operator of the real operands answers/masks, exact). numpy pad / integer bitwise ops are parameters.'},
+    {'property_id': 'C20',
+     'technique': 'Lean 4 theorems over a list model of n-d arrays with numpy broadcasting/indexing as a stated parameter; correspondence run (by builder)',
+     'text': 'Constructor broadcast (shape, values, scalar stays scalar, ValueError iff not broadcastable), getitem delegates to x[key], y[key] for every key of the modelled index language incl. exceptions, '
+             'len/iter agreement, +/- component-wise and mutually inverse, separation = Euclidean, rotate = point-wise isometry that composes additively, fixes the centre and is inverted by the opposite angle (any shapes), '
+             'sky round trip under an invertible WCS for both origins. numpy broadcasting/indexing rules and the WCS are parameters; copy independence is checked on real arrays.',
+     'note': 'Partial: numpy and wcslib are parameters. Trusted: Lean kernel/Mathlib/3 std axioms; model PixCoord.lean + Lemmas/NDArr.lean tied by the differential run (exact on dyadic data). F201 (rotate for rank>=2) fixed in /repo 1970dc7.'},
 ]
 
 _PENDING = 'check not built yet in this session (see DESIGN.md build order); not a statement that the technique cannot apply'
